@@ -247,7 +247,9 @@ def run(ctx: Ctx) -> None:
     ok = seq[:1] == ["await self.send(EndBody(stream_id=self.stream_id))"] and seq[-1:] == ["await self.send(StreamClosed(stream_id=self.stream_id))"] and "self.state = ASGIHTTPState.CLOSED" in seq
     ctx.check("C02.R7", "protocol.http_stream:HTTPStream._send_closed", "EndBody ... state CLOSED ... StreamClosed", ok, f"_send_closed body: {seq}", sc)
     srj = [c for c in calls(rej) if call_name(c) == "Response"]
-    ok = len(srj) == 1 and norm(kwarg(srj[0], "status_code")) == "int(self.response['status'])" and norm(kwarg(srj[0], "headers")) == "headers" and any(isinstance(n, ast.Assign) and dotted(n.targets[0]) == "headers" and norm(n.value) == "build_and_validate_headers(self.response['headers'])" for n in walk_local(rej))
+    from ..astq import expand_locals
+
+    ok = len(srj) == 1 and norm(kwarg(srj[0], "status_code")) == "int(self.response['status'])" and norm(expand_locals(kwarg(srj[0], "headers"), rej)) == "build_and_validate_headers(self.response['headers'])"
     ctx.check("C02.R7", wr, "denial Response(status <- response.start, validated headers)", ok, "the websocket HTTP-response extension must render exactly the given response", srj[0] if srj else rej)
 
     # R8
@@ -258,6 +260,9 @@ def run(ctx: Ctx) -> None:
     from . import c08, c19
 
     c08.run(Alias(ctx, "C02.R10", "serialised bytes are written to the transport and drained under the send lock in both workers (C08.R5); on HTTP/2 the end of the body waits until the stream's buffer - and with it END_STREAM - has been sent (C08.R6)", only={"C08.R5", "C08.R6"}))
+    from . import c18
+
+    c18.run(Alias(ctx, "C02.R12", "HTTP/2: the connection is closed for the request maximum only when it is strictly exceeded - closing it on the last permitted request discards that request's response and every response still in flight (C18.R2 on H2Protocol._handle_events)", only={"C18.R2"}, where=["H2Protocol._handle_events"]))
     c19.run(Alias(ctx, "C02.R7b", "the server's own headers are date (RFC 7231 date of now), server and alt-svc, exactly under their switches, in that order (C19.R6)", only={"C19.R6"}))
     ctx.assume("not decided: that h11/h2 serialise those events into bytes a client parses back identically; chunked vs content-length framing chosen inside h11; byte-level flow control (C09)")
     from . import typestate_rules
